@@ -11,7 +11,7 @@ use bevy::{
 use uuid::Uuid;
 
 use crate::{
-    binreflect::bin_to_reflect, bundle_fix::BundleFixPlugin, client::ClientSyncPlugin, proto::AssId, server::ServerSyncPlugin, ClientPlugin, ClientState, InitialSyncFinished, PromoteToHostEvent, ServerPlugin, ServerState, SyncComponent, SyncEntity, SyncExclude, SyncMark, SyncPlugin
+    binreflect::try_bin_to_reflect, bundle_fix::BundleFixPlugin, client::ClientSyncPlugin, proto::AssId, server::ServerSyncPlugin, ClientPlugin, ClientState, InitialSyncFinished, PromoteToHostEvent, ServerPlugin, ServerState, SyncComponent, SyncEntity, SyncExclude, SyncMark, SyncPlugin
 };
 
 #[derive(PartialEq, Eq, Hash)]
@@ -96,7 +96,10 @@ impl SyncTrackerRes {
     ) -> bool {
         let registry = world.resource::<AppTypeRegistry>().clone();
         let registry = registry.read();
-        let component_data = bin_to_reflect(data, &registry);
+        let Some(component_data) = try_bin_to_reflect(data, &registry) else {
+            debug!("Could not decode component {:?} from network, ignoring it", name);
+            return false;
+        };
         let name = if (*component_data).type_id() == TypeId::of::<SkinnedMeshSyncMapper>() {
             SkinnedMesh::default().reflect_type_path().to_string()
         } else {
@@ -176,16 +179,21 @@ impl SyncTrackerRes {
         material: &[u8],
         world: &mut World,
     ) {
+        let registry = world.resource::<AppTypeRegistry>().clone();
+        let registry = registry.read();
+        let Some(component_data) = try_bin_to_reflect(material, &registry) else {
+            debug!("Could not decode material {:?} from network, ignoring it", id);
+            return;
+        };
+        let Ok(mat) = component_data.downcast::<StandardMaterial>() else {
+            return;
+        };
         world
             .resource_mut::<SyncTrackerRes>()
             .pushed_handles_from_network
             .insert(id);
-        let registry = world.resource::<AppTypeRegistry>().clone();
-        let registry = registry.read();
-        let component_data = bin_to_reflect(material, &registry);
         let mut materials = world.resource_mut::<Assets<StandardMaterial>>();
-        let mat = *component_data.downcast::<StandardMaterial>().unwrap();
-        materials.insert(id, mat);
+        materials.insert(id, *mat);
     }
 
     pub(crate) fn to_skinned_mapper(
